@@ -382,6 +382,15 @@ impl BlockchainSyncState {
         self.blocks_to_fetch.retain(|_, deq| !deq.is_empty());
     }
 
+    /// Removes a block from the fetch queue of one peer. What other peers announced stays queued
+    pub fn remove_entry_of_peer(&mut self, block_hash: SaitoHash, peer_index: PeerIndex) {
+        if let Some(deq) = self.blocks_to_fetch.get_mut(&peer_index) {
+            deq.retain(|block_data| block_data.block_hash != block_hash);
+        }
+
+        self.blocks_to_fetch.retain(|_, deq| !deq.is_empty());
+    }
+
     pub fn get_stats(&self) -> Vec<String> {
         let mut stats = vec![];
         for (peer_index, vec) in self.blocks_to_fetch.iter() {
